@@ -66,6 +66,8 @@ type pcase struct {
 	// Flip lists resource names that the reconcile under test desires at apiVersion v2 although
 	// they were composed at v1 (same kind: the name keeps its kind, as the quantifier requires)
 	Flip []string `json:"flipVersion,omitempty"`
+	// Beta lists the steps whose function serves only the v1beta1 RunFunction API
+	Beta []int `json:"betaOnlySteps,omitempty"`
 }
 
 func (p *pcase) failing() (bool, int, string) {
@@ -145,6 +147,11 @@ func genCase(c *kit.Ctx, i int) pcase {
 		p.ObserveErr = true
 	}
 	p.BehindCache = r.IntN(4) == 0
+	for st := 0; st < ns; st++ {
+		if r.IntN(4) == 0 {
+			p.Beta = append(p.Beta, st)
+		}
+	}
 	for _, n := range p.Initial {
 		if r.IntN(5) == 0 {
 			p.Flip = append(p.Flip, n)
@@ -156,6 +163,7 @@ func genCase(c *kit.Ctx, i int) pcase {
 type worker struct {
 	c    *kit.Ctx
 	fns  []*xrk.FnServer
+	bfns []*xrk.FnServer // the same programs behind servers that only speak v1beta1
 	mu   sync.Mutex
 	cur  *pcase
 	init bool // true while composing the initial set
@@ -172,6 +180,9 @@ func newWorker(c *kit.Ctx, id int) *worker {
 	for i := range w.fns {
 		step := i
 		w.fns[i].Set(func(req *fnv1.RunFunctionRequest) (*fnv1.RunFunctionResponse, error) { return w.program(step, req) })
+		b := xrk.NewFnServer(true)
+		b.Set(func(req *fnv1.RunFunctionRequest) (*fnv1.RunFunctionResponse, error) { return w.program(step, req) })
+		w.bfns = append(w.bfns, b)
 	}
 	// base world: XRD, four functions, compositions with 1..4 steps
 	bw := sim.NewWorld(xrk.Scheme(), uint64(c.Seed)*100+uint64(id))
@@ -182,6 +193,9 @@ func newWorker(c *kit.Ctx, id int) *worker {
 		n := fmt.Sprintf("fn-%d", i)
 		names = append(names, n)
 		for _, o := range xrk.FunctionObjects(n, w.fns[i].Addr) {
+			bw.MustSeedFull("pkg", o)
+		}
+		for _, o := range xrk.FunctionObjects(fmt.Sprintf("fnb-%d", i), w.bfns[i].Addr) {
 			bw.MustSeedFull("pkg", o)
 		}
 		cn := fmt.Sprintf("comp%d", i+1)
@@ -307,6 +321,23 @@ func (w *worker) runCase(i int, name string) {
 
 	world := w.base.Clone()
 	comp := fmt.Sprintf("comp%d", len(p.Steps))
+	if len(p.Beta) > 0 {
+		var fnNames []string
+		for st := range p.Steps {
+			n := fmt.Sprintf("fn-%d", st)
+			for _, b := range p.Beta {
+				if b == st {
+					n = fmt.Sprintf("fnb-%d", st)
+				}
+			}
+			fnNames = append(fnNames, n)
+		}
+		comp = "compx"
+		world.MustSeed("user", xrk.PipelineComposition(comp, "ex.org/v1", "XThing", fnNames, nil))
+		if err := xrk.ReconcileComposition(world, comp); err != nil {
+			panic(err)
+		}
+	}
 	world.MustSeed("user", xrk.XRObject("ex.org/v1", "XThing", "xr1", comp, map[string]any{"size": int64(1)}))
 	lagging := false
 	cached := world.LaggingClient("xr", func(gk schema.GroupKind) (int64, bool) {
@@ -533,7 +564,7 @@ func genPT(c *kit.Ctx, i int) ptCase {
 	}
 	for _, n := range p.Before {
 		if r.IntN(5) == 0 {
-			p.Perturb = append(p.Perturb, perturbation{Name: n, What: []string{"missing", "terminating", "uncontrolled"}[r.IntN(3)]})
+			p.Perturb = append(p.Perturb, perturbation{Name: n, What: []string{"missing", "terminating", "uncontrolled", "duplicate-ref", "duplicate-ref"}[r.IntN(5)]})
 		}
 	}
 	return p
@@ -589,6 +620,19 @@ func (w *worker) runPT(i int, name string) {
 		case "uncontrolled":
 			u.SetOwnerReferences(nil)
 			_ = user.Update(nil, u) //nolint:staticcheck
+		case "duplicate-ref":
+			// the XR's spec.resourceRefs lists this resource twice (a hand edit, a restore, or a
+			// merge of two writers' lists)
+			xr := &unstructured.Unstructured{Object: world.GetObj(xrKey)}
+			refs, _, _ := unstructured.NestedSlice(xr.Object, "spec", "resourceRefs")
+			for _, rf := range refs {
+				if m, ok := rf.(map[string]any); ok && m["name"] == k.Name && m["kind"] == k.Kind {
+					refs = append(refs, runtime.DeepCopyJSONValue(m))
+					break
+				}
+			}
+			_ = unstructured.SetNestedSlice(xr.Object, refs, "spec", "resourceRefs")
+			_ = user.Update(nil, xr) //nolint:staticcheck
 		}
 	}
 	observed := map[string]bool{}
